@@ -145,10 +145,26 @@ def _user_units_config():
     return {".osyris/config_osyris.py": text.replace("    return library\n", extra, 1)}
 
 
+def _user_constants_config():
+    """A trimmed, hand-written user configuration: the working tree's defaults, except that configure_constants defines only two
+    constants, under their short names and with values of the user's own (M_sun = 2.0e33 g, R_sun = 7.0e10 cm)."""
+    import re
+
+    text = open(os.path.join(repo_root(), "src", "osyris", "config", "defaults.py")).read()
+    new, n = re.subn(r"def configure_constants\(units\):\n(?:(?:    .*|)\n)+?(?=\n\ndef )",
+                     'def configure_constants(units):\n    units.define("M_sun = 2.0e+33 * g")\n    units.define("R_sun = 7.0e+10 * cm")\n', text, count=1)
+    if n != 1:
+        raise RuntimeError("harness: defaults.py has no configure_constants to replace")
+    return {".osyris/config_osyris.py": new}
+
+
 ENVIRONMENTS = {
     "python-O": {"flags": ["-O"]},
     "PYTHONOPTIMIZE=2": {"env": {"PYTHONOPTIMIZE": "2"}},
     "user-units": {"home_files": _user_units_config},
+    # numba's switch for running its kernels as plain Python (debugging, coverage): same results, only slower
+    "NUMBA_DISABLE_JIT=1": {"env": {"NUMBA_DISABLE_JIT": "1"}},
+    "user-constants": {"home_files": _user_constants_config},
 }
 
 
